@@ -2,7 +2,7 @@
    Property theorems only; each is closed by a lemma of Proofs/C09*.v.
    The model (Model/C09Model.v) is parametric in the variant of the code; [fixedv] is the
    repository with the four "fix:" commits of branch agent-c09, [origv] the unchanged tree. *)
-From GP Require Import Base C09Model C09Spec C09Seq C09Proofs C09Stream C09Flush.
+From GP Require Import Base C09Model C09Spec C09Seq C09Proofs C09Stream C09Flush C09Keep C09Send C09Full C09Cover.
 Open Scope Z_scope.
 
 (* ------------------------------------------------------------------ (i) C09_seq *)
@@ -316,3 +316,94 @@ Example C09_stream_partial_flush_nonvacuous :
               (concat (map fst (run_hist fixedv w_S 4294967293 (HCfg 0 2 :: HSyn 0 1 :: mids ++ [HFlushAll])))))
   = [(0, []); (4, [68; 85]); (2, [136; 153])].
 Proof. vm_compute. repeat split; reflexivity. Qed.
+
+(* ------------------------------------------------------------------ C09_stream_events: every history *)
+
+(* For the code as it stands ([fullv]: the six repairs), every stream shorter than 2^30 - 1, every
+   ISN and EVERY history of consistent operations — SYN first, late, repeated (with any payload) or
+   absent, data in any order with duplicates and overlaps, FIN/RST, any page limits changed at any
+   time, any KeepFrom script changed at any time, FlushWithOptions / FlushCloseOlderThan with any
+   times, FlushAll anywhere, traffic after completion (a new stream) —:
+   the run never stops (no panic: the trace has an entry for every operation) and its events are
+   legal for the abstract state (gtrace / gev, Proofs/C09Full.v), which follows each stream from
+   StreamFactory.New to ReassemblyComplete:
+   - ReassembledSG only on a live stream whose data half is not closed; New only when no
+     connection is in the pool; Complete only on a live stream, once (per-stream accounting);
+   - start never seen (no SYN yet): the first ScatterGather has skip -1, nothing saved, and its bytes
+     are a true slice S[a, e'); only then is skip -1 possible; a SYN makes the start known (0);
+   - start known, delivery point p, kept bytes S[A, p): a ScatterGather has skip = a - p >= 0 where a
+     is the offset of its new data; skip > 0 only in a flush or when a page limit is configured;
+     with skip 0 it carries saved = p - A bytes and its bytes are S[A, e') — the kept bytes are
+     presented again, unchanged, directly in front of the new data S[p, e') —; with skip > 0 the kept
+     bytes are dropped (saved 0) and its bytes are S[a, e'): the skip is the exact distance;
+   - afterwards the delivery point is e' and the kept bytes are S[A + k, e') when the stream called
+     KeepFrom(k) with 0 <= k < available (k as scripted for this call), and nothing otherwise.
+   Missing for C09_stream_statement: that a skipped range (and the range before the first delivery
+   of a stream whose start was never seen) contains no byte that had arrived, and that FlushAll
+   delivers everything received and completes every stream (both need a coverage invariant of the
+   queue w.r.t. the received ranges), and the step from this Prop to the boolean trace_okb. *)
+Theorem C09_stream_events : forall S i hs,
+  zlen S < 1073741823 -> forallb (hop_okb S) hs = true ->
+  gtrace S (mkCfg 0 0 []) GDead 0 hs (run_hist fullv S i hs).
+Proof. exact stream_events. Qed.
+Print Assumptions C09_stream_events.
+
+(* sendToConnection in general: what the ScatterGather carries and what is kept *)
+Theorem C09_send : forall S i c h used r0 sid nc kn a,
+  zlen S < 1073741823 ->
+  cok S i a r0 -> qok S i (a + clen r0) HIS (h_queue h) -> known_ok S i h kn a ->
+  exists e' saved2 q1 tg st,
+    let r := send fullv c h used r0 sid nc in
+    let A' := sg_start kn a in
+    let k := keep_choice c nc (e' - A') (a - A') in
+    sr_panic r = false /\ sr_next r = sq i e' /\
+    sr_ev r = map ETag tg ++ [ESG sid (sub S A' (e' - A')) st (sr_end r) (sg_skip kn a) (e' - A') (a - A')] /\
+    h_saved (sr_half r) = saved2 /\ h_queue (sr_half r) = q1 /\
+    h_next (sr_half r) = h_next h /\ h_closed (sr_half r) = h_closed h /\
+    a + clen r0 <= e' /\ e' <= zlen S /\ 0 <= A' <= a /\
+    (h_queue h = [] -> sr_end r = cend r0) /\
+    qok S i (e' + 1) HIS q1 /\
+    sok S i (if (0 <=? k) && (k <? e' - A') then A' + k else e') e' saved2.
+Proof. exact send_gen. Qed.
+Print Assumptions C09_send.
+
+(* non-vacuity: KeepFrom(1) at every call, data before the SYN, a closing flush and a re-open *)
+Example C09_stream_events_nonvacuous :
+  let hs := [HKeep [(1, 1)]; HData 4 2 false false 2; HData 2 2 false false 3; HSyn 2 4; HData 6 2 false false 5;
+             HFlush 100 100; HData 8 2 true false 200; HFlushAll] in
+  forallb (hop_okb w_S) hs = true /\
+  map (fun e => match e with ESG sid b _ _ k _ sv => (Z.of_nat sid, k, sv, b) | _ => (0, 0, 0, []) end)
+      (filter is_sg (concat (map fst (run_hist fullv w_S 4294967293 hs))))
+  = [(1, 0, 0, [0; 17; 34; 51; 68; 85]); (1, 0, 5, [17; 34; 51; 68; 85; 102; 119]); (2, -1, 0, [136; 153])].
+Proof. vm_compute. split; reflexivity. Qed.
+
+(* ------------------------------------------------------------------ nothing held is lost *)
+
+(* covl S i q x: byte x of the stream is held by a page of the queue q.
+   checkOverlap (all six cases): every byte held before is held afterwards, except the bytes of the
+   new segment's own range when it is delivered at once (in-order mode); in queue mode the bytes of
+   the new segment are held afterwards - in fresh pages or, case 6, in the page that already had them. *)
+Theorem C09_queue_cover : forall S i w q s n ts fl doq,
+  zlen S < 1073741823 -> qok S i w HIS q -> 0 <= w -> 0 <= s -> 0 <= n -> s + n <= zlen S ->
+  let r := check_overlap fullv q (sub S s n) (sq i s) ts fl doq in
+  forall x, (covl S i q x /\ ~ (s <= x < s + n)) \/ (doq = true /\ s <= x < s + n) -> covl S i (c2_queue r) x.
+Proof. exact check_overlap_cover. Qed.
+Print Assumptions C09_queue_cover.
+
+(* addContiguous: held bytes beyond the end e' of the run it takes stay queued, and the run extends
+   beyond every x such that all of [e, x] is held: data that has arrived contiguously is never left
+   behind, and is never dropped *)
+Theorem C09_contig_cover : forall S i q e lo hi,
+  zlen S < 1073741823 -> qok S i lo hi q -> e <= lo -> 0 <= e -> hi <= HI 0 -> zlen S < hi -> e <= zlen S ->
+  forall e' tk q1, contig_loop fullv q (sq i e) = (tk, q1, sq i e') -> e <= e' -> e' <= zlen S ->
+  (forall x, covl S i q x -> e' <= x -> covl S i q1 x) /\
+  (forall x, e <= x -> (forall y, e <= y <= x -> covl S i q y) -> x < e').
+Proof. exact contig_loop_cover. Qed.
+Print Assumptions C09_contig_cover.
+
+(* a flush or a page limit hands over the first queued page: no held byte lies before it, so the
+   range that is skipped (from the delivery point, which is <= lo, to that page) holds no queued byte *)
+Theorem C09_skip_holds_nothing : forall S i q lo hi x,
+  zlen S < 1073741823 -> qok S i lo hi q -> covl S i q x -> lo <= x.
+Proof. exact qok_cov_ge. Qed.
+Print Assumptions C09_skip_holds_nothing.
